@@ -192,9 +192,14 @@ func (p *Proj) renderAtom(b *strings.Builder, a *Atom) {
 		if refs != "" {
 			refs = ", " + refs
 		}
-		fmt.Fprintf(b, "def %s(n):\n    def inner():\n        return [n, %s%s]\n    return inner\n", a.Name, a.Lit, refs)
+		// every closure of one factory shares the compiled body of inner; they differ in the captured n and the default d
+		fmt.Fprintf(b, "def %s(n, k=0):\n    def inner(d=k):\n        return [n, d, %s%s]\n    return inner\n", a.Name, a.Lit, refs)
 	case "closure":
-		fmt.Fprintf(b, "%s = %s(%s)\n", a.Name, a.Refs[0], a.Lit)
+		if a.Def != "" {
+			fmt.Fprintf(b, "%s = %s(%s, %s)\n", a.Name, a.Refs[0], a.Lit, a.Def)
+		} else {
+			fmt.Fprintf(b, "%s = %s(%s)\n", a.Name, a.Refs[0], a.Lit)
+		}
 	case "flag":
 		fmt.Fprintf(b, "%s = parse_flag(%q, default=\"dflt\")\n", a.Name, strings.ToLower(a.Name))
 	}
@@ -479,6 +484,14 @@ func (g *Gen) Project() *Proj {
 		for lib := range f.Loads {
 			if r.IntN(2) == 0 {
 				f.Atoms = append(f.Atoms, &Atom{Name: "cl" + tag + lib, File: f.ID, Kind: "closure", Lit: fmt.Sprint(r.IntN(70000)), Refs: []string{lib + "_mk"}})
+				// sibling closures of the same factory (same code, different captured value / default value)
+				for k := r.IntN(3); k > 0; k-- {
+					sib := &Atom{Name: fmt.Sprintf("cl%d%s%s", k, tag, lib), File: f.ID, Kind: "closure", Lit: fmt.Sprint(r.IntN(70000)), Refs: []string{lib + "_mk"}}
+					if r.IntN(2) == 0 {
+						sib.Def = fmt.Sprint(r.IntN(500))
+					}
+					f.Atoms = append(f.Atoms, sib)
+				}
 			}
 		}
 		if pk == "" && r.IntN(3) == 0 {
@@ -507,6 +520,9 @@ func (g *Gen) Project() *Proj {
 		}
 		if r.IntN(3) == 0 {
 			t.Doc = fmt.Sprintf("Target %d.", i)
+		}
+		if r.IntN(12) == 0 {
+			t.Always = true // declared always=True: runs in every build that reaches it, and so does what depends on it
 		}
 		for _, d := range all {
 			switch r.IntN(6) {
@@ -544,9 +560,24 @@ func (g *Gen) Project() *Proj {
 				t.Sources = append(t.Sources, relTo(pk, filepath.Join(other, "s0.txt")))
 			}
 		}
+		used := map[string]bool{}
 		for _, a := range f.Atoms {
 			if r.IntN(2) == 0 {
 				g.use(t, a)
+				used[a.Name] = true
+			}
+		}
+		// closures of one factory tend to be used together
+		for _, a := range f.Atoms {
+			if a.Kind != "closure" || used[a.Name] {
+				continue
+			}
+			for _, b := range f.Atoms {
+				if b.Kind == "closure" && used[b.Name] && b.Refs[0] == a.Refs[0] && r.IntN(2) == 0 {
+					g.use(t, a)
+					used[a.Name] = true
+					break
+				}
 			}
 		}
 		for lib, names := range f.Loads {
